@@ -49,12 +49,11 @@ func queryRoots(c *Ctx) []*ssa.Function {
 }
 
 // allowedMemo: write -> reason.
-func allowedMemo(w Write) (string, bool) {
-	fn := shortFn(w.Fn)
+func allowedMemo(p *Prog, w Write) (string, bool) {
 	switch {
-	case w.Kind == "mapupdate" && w.What == "filterlist.RuleStorage.cache" && strings.Contains(fn, "RuleStorage).RetrieveRule"):
+	case w.Kind == "mapupdate" && w.What == "filterlist.RuleStorage.cache" && inGroupOf(p, w.Fn, p.Method("filterlist", "RuleStorage", "RetrieveRule")):
 		return "rule cache: value = the rule parsed from the list at that index, key = the index (C19.R4)", true
-	case w.Kind == "store" && (w.What == "rules.NetworkRule.regex" || w.What == "rules.NetworkRule.invalid") && strings.Contains(fn, "NetworkRule).preparePattern"):
+	case w.Kind == "store" && (w.What == "rules.NetworkRule.regex" || w.What == "rules.NetworkRule.invalid") && inGroupOf(p, w.Fn, p.Method("rules", "NetworkRule", "preparePattern")):
 		return "lazily compiled pattern / invalid flag: a function of the immutable pattern and options (C03.R5/R6)", true
 	}
 	return "", false
@@ -85,7 +84,7 @@ func runC13(c *Ctx) {
 	nAlias := 0
 	for _, w := range ws {
 		key := fmt.Sprintf("%s: %s of %s", shortFn(w.Fn), w.Kind, w.What)
-		if why, ok := allowedMemo(w); ok {
+		if why, ok := allowedMemo(c.P, w); ok {
 			memoSeen[w.What] = true
 			c.OK("C13.R1", key, w.Instr.Pos(), "declared memo state: "+why)
 			continue
